@@ -7,6 +7,7 @@
 package main
 
 import (
+	"bytes"
 	"crypto/rsa"
 	"crypto/sha256"
 	"crypto/x509"
@@ -148,13 +149,14 @@ func main() {
 	acts := actions(r)
 	byName := map[string]action{}
 	var names []string
-	// the quick BFS leaves the large serials to the lines below (they multiply the states)
+	// the BFS leaves the large serials to the lines below (they multiply its states without adding
+	// a branch of the commands that the small serials do not take)
 	large := map[string]bool{"rotate serial=2^64+5": true, "bootstrap --overwrite serials=2^64,2^100+7": true}
 	var bfsNames []string
 	for _, a := range acts {
 		byName[a.name] = a
 		names = append(names, a.name)
-		if !large[a.name] || r.Thorough() {
+		if !large[a.name] {
 			bfsNames = append(bfsNames, a.name)
 		}
 	}
@@ -209,14 +211,14 @@ func main() {
 		if b.CapHit {
 			r.Cap("BFS for " + kind + " stopped at the internal deadline")
 		}
-		if !r.Thorough() && kind == kmfx.MemMem {
+		if kind == kmfx.MemMem {
 			// every three-command history that contains a large serial, one process per command (the
 			// other two kinds run them in the one-process lines below)
 			var big [][]string
 			for _, x := range names {
 				for _, y := range names {
 					for _, z := range names {
-						if (large[x] || large[y] || large[z]) && byName[x].verb == "bootstrap" {
+						if (large[x] || large[y] || large[z]) && (r.Thorough() || byName[x].verb == "bootstrap") {
 							big = append(big, []string{x, y, z})
 						}
 					}
@@ -379,9 +381,18 @@ func step(r *mc.Run, kind string, n *mc.Node, a action, id string, inPlace bool)
 	// the recorded primary's certificate belongs to a previous key of the same name. Everything else
 	// wrong in such a state is a consequence; it is reported once under its own key and the state is
 	// not explored further.
-	if ok && a.keepGoing && after.PrimaryName != "" {
-		if c, pub := after.Certs[after.PrimaryName], after.Live[after.PrimaryName]; c != nil && pub != nil && !pub.Equal(c.PublicKey) {
-			viol("keep_going-kept-stale-certificate", fmt.Sprintf("%q succeeded but the recorded primary %q keeps the certificate of a previous key of that name (manifest entry already existed)", a.name, after.PrimaryName))
+	// The same defect shows through the root where key-version names are never reused (Cloud KMS):
+	// the stored root certificate object is kept although the root key is a new one. The finding is
+	// keyed by the world's components, not by how many processes ran the history.
+	if ok && a.keepGoing {
+		stale := ""
+		if c, pub := after.Certs[after.PrimaryName], after.Live[after.PrimaryName]; after.PrimaryName != "" && c != nil && pub != nil && !pub.Equal(c.PublicKey) {
+			stale = fmt.Sprintf("%q succeeded but the recorded primary %q keeps the certificate of a previous key of that name (manifest entry already existed)", a.name, after.PrimaryName)
+		} else if pub := after.Live[after.RootName]; after.Root != nil && pub != nil && !pub.Equal(after.Root.PublicKey) {
+			stale = fmt.Sprintf("%q succeeded but the stored root certificate is still that of a previous root key (the live root key %q is another one)", a.name, after.RootName)
+		}
+		if stale != "" {
+			r.Violation(strings.TrimSuffix(kind, "(one-process)")+"/keep_going-kept-stale-certificate", id, stale, map[string]any{"command": a.name, "command_error": fmt.Sprint(err), "state": after.Canon()})
 			r.Validated()
 			r.Outcome(a.verb + ":ok-stale")
 			k.w.Drop()
@@ -506,6 +517,13 @@ func step(r *mc.Run, kind string, n *mc.Node, a action, id string, inPlace bool)
 	}
 	for kv, c := range after.Certs {
 		if kv == after.RootName {
+			continue
+		}
+		// A self-signed certificate listed under another name than the current root's is the
+		// certificate of an earlier root (where key-version names are never reused, a re-bootstrap
+		// leaves it listed): not a signing certificate. The primary's certificate is always judged.
+		if kv != after.PrimaryName && bytes.Equal(c.RawSubject, c.RawIssuer) && c.CheckSignatureFrom(c) == nil {
+			r.Outcome("earlier-root-certificate-still-listed")
 			continue
 		}
 		if c.IsCA {
